@@ -275,7 +275,7 @@ func (c18) Run(c *core.Ctx) {
 	}
 	rec(0)
 	// --- distance-1 edits of the repository fixtures
-	fixtures, _ := filepath.Glob("/repo/dotenv/fixtures/*.env")
+	fixtures, _ := filepath.Glob(RepoDir() + "/dotenv/fixtures/*.env")
 	sort.Strings(fixtures)
 	edits := []byte("A=:'\"\\#${} \n\t\r\x00\xff")
 	for _, f := range fixtures {
